@@ -74,16 +74,23 @@ Fixpoint colspan_loop (h : Q) (cells : list scell) (st : list pcol) : option (li
   | c :: r => match colspan_step h c st with Some st1 => colspan_loop h r st1 | None => None end
   end.
 
+(* after the loop: max_content_widths = [max(max_content, min_content) for ... in zip(...)] *)
+Definition order_min_max (st : list pcol) : list pcol :=
+  map (fun p => mkpcol (p_cons p) (p_pct p) (p_min p) (Qmax (p_max p) (p_min p))) st.
+
 (* columns: contributions per column (grid order); cells: the colspan cells in the order of the source
    (by originating column, then by row) *)
 Definition preferred_columns (h : Q) (columns : list (list contrib)) (cells : list scell) : option (list pcol) :=
-  colspan_loop h cells (clamp_pcts 0 (map base_col columns)).
+  match colspan_loop h cells (clamp_pcts 0 (map base_col columns)) with
+  | Some st => Some (order_min_max st)
+  | None => None
+  end.
 
 (* ---- judge ----
    case: h, columns, cells, implementation's (min, max, pct, constrained) lists.
    bit 0: model <> implementation; bit 1: the spec fails on the implementation's lists: every colspan cell that
-   lies inside the grid fits in the columns it spans plus the spacings between them (min and max), min <= max is
-   NOT demanded (see the report), nothing is negative. *)
+   lies inside the grid fits in the columns it spans plus the spacings between them (min and max), every column has
+   min <= max, nothing is negative. *)
 Definition cell_fits_b (tol h : Q) (mins maxs : list Q) (c : scell) : bool :=
   let a := s_gx c in
   let b := (s_gx c + s_span c)%nat in
@@ -93,7 +100,8 @@ Definition cell_fits_b (tol h : Q) (mins maxs : list Q) (c : scell) : bool :=
 
 Definition pref_spec_b (tol h : Q) (cells : list scell) (mins maxs : list Q) : bool :=
   forallb (cell_fits_b tol h mins maxs) cells &&
-  forallb (fun w => leq tol 0 w) mins && forallb (fun w => leq tol 0 w) maxs.
+  forallb (fun w => leq tol 0 w) mins && forallb (fun w => leq tol 0 w) maxs &&
+  Nat.eqb (length mins) (length maxs) && forallb (fun p => leq tol (fst p) (snd p)) (combine mins maxs).
 
 Fixpoint blist_eqb (a b : list bool) : bool :=
   match a, b with
